@@ -60,6 +60,28 @@ def _check_measures(rp, hd, hv, hw, n, tag, viol, white=True):
             if not _close(got, e):
                 viol.append(V("RecurrencePlot.%s:value:%s" % (name, tag),
                               "min length %d" % m, got, e))
+    # the summary is the stated selection of these measures, each with ITS
+    # minimal length (every ordered pair l_min != v_min up to 4)
+    for lm in range(1, min(n, 4) + 1):
+        for vm in range(1, min(n, 4) + 1):
+            if lm == vm and lm > 1:
+                continue
+            ev += 1
+            try:
+                got = rp.rqa_summary(l_min=lm, v_min=vm)
+            except Exception as ex:   # noqa
+                viol.append(V("RecurrencePlot.rqa_summary:raises:%s" % tag,
+                              "l_min=%d v_min=%d: %r" % (lm, vm, ex),
+                              repr(ex), "a dictionary"))
+                break
+            want = {"DET": rqa.ratio_measure(hd, lm),
+                    "L": rqa.mean_length(hd, lm),
+                    "LAM": rqa.ratio_measure(hv, vm)}
+            for k_, e in want.items():
+                if k_ not in got or not _close(got[k_], e):
+                    viol.append(V("RecurrencePlot.rqa_summary:value:%s:%s" % (
+                        k_, tag), "l_min=%d v_min=%d" % (lm, vm),
+                        got.get(k_), e))
     exp = {"max_diaglength": rqa.max_length(hd),
            "max_vertlength": rqa.max_length(hv)}
     if white:
